@@ -753,7 +753,7 @@ macro_rules! lim5_ack {
         }
     };
 }
-//@ props: C09
+//@ props: C09 C08
 //@ tier: quick
 //@ functions: v5::Codec::{encodev, set_max_outbound_size}, EncodeLtd for Packet / PublishAck, ack_props::{encoded_size, encode}, encoded_size_opt_props, encode_opt_props, var_int_len, var_int_len_from_size
 //@ bounds: peer Maximum Packet Size: EVERY u32 value except 1..=5 (0 = unlimited); request-problem-information flag symbolic; packet id full width; all reason codes; 0..=2 user properties (0..=1-byte strings); optional reason string 0..=2 bytes
@@ -762,7 +762,7 @@ macro_rules! lim5_ack {
 //@ mem: 10  timeout: 1500
 //@ desc: PUBACK under an outbound limit: no panic for any limit; Ok => one frame, truthful length == reported size, within the peer limit, only whole trailing diagnostics dropped; Err => OverMaxPacketSize and nothing appended; declined problem information => no diagnostics
 lim5_ack!(lim5_puback, PublishAck, PublishAck, any_puback_reason, 0x40);
-//@ props: C09
+//@ props: C09 C08
 //@ tier: quick
 //@ functions: v5::Codec::{encodev, set_max_outbound_size}, EncodeLtd for PublishAck2, ack_props::*, encoded_size_opt_props, encode_opt_props
 //@ bounds: as lim5_puback (PUBREL; both reason codes)
@@ -832,7 +832,7 @@ macro_rules! lim5_suback {
         }
     };
 }
-//@ props: C09
+//@ props: C09 C08
 //@ tier: quick
 //@ functions: v5::Codec::{encodev, set_max_outbound_size}, EncodeLtd for SubscribeAck, ack_props::*, reduce_limit, encoded_size_opt_props, encode_opt_props
 //@ bounds: peer Maximum Packet Size: every u32 except 1..=5; request-problem-information symbolic; 0..=4 reason codes; 0..=2 user properties (0..=1-byte strings); optional reason string 0..=2 bytes
@@ -841,7 +841,7 @@ macro_rules! lim5_suback {
 //@ mem: 10  timeout: 1500
 //@ desc: SUBACK under an outbound limit (obligations as lim5_puback; reason codes never dropped)
 lim5_suback!(lim5_suback, SubscribeAck, SubscribeAck, any_suback_reason, 0x90);
-//@ props: C09
+//@ props: C09 C08
 //@ tier: quick
 //@ functions: v5::Codec::{encodev, set_max_outbound_size}, EncodeLtd for UnsubscribeAck, ack_props::*, reduce_limit
 //@ bounds: as lim5_suback
@@ -852,7 +852,7 @@ lim5_suback!(lim5_suback, SubscribeAck, SubscribeAck, any_suback_reason, 0x90);
 lim5_suback!(lim5_unsuback, UnsubscribeAck, UnsubscribeAck, any_unsuback_reason, 0xB0);
 
 vharness! {
-    //@ props: C09 C15
+    //@ props: C09 C15 C08
     //@ tier: quick
     //@ functions: v5::Codec::{encodev, set_max_outbound_size}, EncodeLtd for Disconnect, reduce_limit, encoded_size_opt_props, encode_opt_props, var_int_len_from_size
     //@ bounds: peer Maximum Packet Size: every u32 except 1..=5; all 30 reason codes; optional session expiry (full width) and server reference (0..=1 byte) - never droppable; 0..=2 user properties (0..=1-byte strings); optional reason string 0..=2 bytes
@@ -920,7 +920,7 @@ vharness! {
 }
 
 vharness! {
-    //@ props: C09
+    //@ props: C09 C08
     //@ tier: quick
     //@ functions: v5::Codec::{encodev, set_max_outbound_size}, EncodeLtd for Auth, reduce_limit, encoded_size_opt_props, encode_opt_props, var_int_len_from_size
     //@ bounds: peer Maximum Packet Size: every u32 except 1..=5; request-problem-information symbolic; all 3 reason codes; optional auth method/data (0..=1 byte) - never droppable; 0..=2 user properties; optional reason string 0..=2 bytes
@@ -991,7 +991,7 @@ vharness! {
 }
 
 vharness! {
-    //@ props: C09
+    //@ props: C09 C08
     //@ tier: quick
     //@ functions: v5::Codec::{encodev, set_max_outbound_size}, EncodeLtd for ConnectAck, reduce_limit, encoded_size_opt_props, encode_opt_props, var_int_len_from_size
     //@ bounds: peer Maximum Packet Size: every u32 except 1..=5; reason code symbolic; optional assigned client id (0..=1 byte), server keep-alive, session expiry - never droppable; 0..=2 user properties; optional reason string 0..=2 bytes; other properties at defaults
